@@ -14,7 +14,7 @@ RULE = (
     "integer-dtype ndarray (whole numbers) on one side and fractional values on the other; operands of different "
     "lengths (incl. length 0 or 1 against n) must raise for every combination; Array.FromScalars(scalars)[i] is "
     "scalars[i] re-expressed in the array's unit (db float conversion, 1e-12*S) with mixed units/categories, also "
-    "with unit=/category= given; Array.GetValues(unit)[i] == Scalar(a_i).GetValue(unit) for every container kind. "
+    "with unit=/category= given; Array.GetValues(unit)[i] == Scalar(a_i).GetValue(unit) for every container kind; where the Scalar conversion is not a number (a unit of another quantity type is rejected, the Unknown quantity returns the amount unchanged) every container kind does the same. "
     "Non-trivial = length >= 2 and (containers differ or units differ); key = (containers, op, length, quantities)."
 )
 ASSUMPTIONS = [
@@ -255,6 +255,41 @@ class Checker:
             ctx.nontrivial(("get_values", u, v, len(vals)))
 
 
+    # -- conversions whose outcome is not a number: the container kind must not matter either ------------------
+    def check_conversion_outcome(self, case):
+        """case: outcome=True, source ('simple' | 'unknown'), u, c, v, values.  The Scalar route decides what the
+        conversion does (a number, the amount unchanged for the Unknown quantity, an exception for a unit of another
+        quantity type); every container kind must do the same, through GetValues(unit) and CreateCopy(unit=)."""
+        from barril.units import Array, ObtainQuantity, Scalar
+
+        ctx = self.ctx
+        src, u, c, v, vals = case["source"], case["u"], case["c"], case["v"], list(case["values"])
+        q = ObtainQuantity("<unknown>", "Unknown") if src == "unknown" else ObtainQuantity(u, c)
+
+        def outcome(fn):
+            try:
+                return ("ok", [float(t) for t in fn()])
+            except Exception as e:
+                if core.tree_frame(e) is None:
+                    raise
+                return ("raises", None)
+
+        refs = {
+            "GetValues": outcome(lambda: [Scalar.CreateWithQuantity(q, x).GetValue(v) for x in vals]),
+            "CreateCopy(unit)": outcome(lambda: [Scalar.CreateWithQuantity(q, x).CreateCopy(unit=v).GetValue() for x in vals]),
+        }
+        ctx.cls("conversion_outcome_%s_%s" % (src, refs["GetValues"][0]))
+        for k in KINDS:
+            for what, fn in (("GetValues", lambda: list(Array.CreateWithQuantity(q, gen.as_container(k, vals)).GetValues(v))), ("CreateCopy(unit)", lambda: list(Array.CreateWithQuantity(q, gen.as_container(k, vals)).CreateCopy(unit=v).GetValues()))):
+                ref = refs[what]
+                got = outcome(fn)
+                ctx.ev()
+                same = got[0] == ref[0] and (got[0] == "raises" or (len(got[1]) == len(ref[1]) and all(core.close(g, w, abs(w) + abs(x), 1e-12) for g, w, x in zip(got[1], ref[1], vals))))
+                if not same:
+                    ctx.fail("conversion_outcome_depends_on_container:%s:%s:%s" % (what, k, src), dict(case, kind=k), "Array(%s) of %r .%s(%r): %r, the Scalars: %r" % (k, q, what, v, got, ref))
+        ctx.nontrivial(("outcome", src, u, v, len(vals)), case if len(ctx.samples) < 12 else None)
+
+
 def _strategies(ch):
     pool, db, um = ch.pool, ch.db, ch.um
     cats = pool.cats
@@ -333,7 +368,21 @@ def _strategies(ch):
         us = um.units(qt)
         return {"qt": qt, "u": draw(st.sampled_from(us)), "v": draw(st.sampled_from(us)), "c": draw(st.sampled_from(cats[qt])), "values": draw(st.lists(gen.finite_values(1e9, 1e-9), min_size=0, max_size=6))}
 
-    return op_case(), len_case(), fs_case(), gv_case()
+    @st.composite
+    def outcome_case(draw):
+        qt = draw(qt_any)
+        qt2 = draw(qt_any)
+        us = um.units(qt)
+        return {
+            "outcome": True,
+            "source": draw(st.sampled_from(["simple", "simple", "unknown"])),
+            "u": draw(st.sampled_from(us)),
+            "c": draw(st.sampled_from(cats[qt])),
+            "v": draw(st.sampled_from(um.units(qt2))),
+            "values": draw(st.lists(gen.finite_values(1e9, 1e-9), min_size=1, max_size=4)),
+        }
+
+    return op_case(), len_case(), fs_case(), gv_case(), outcome_case()
 
 
 def _fix(case):
@@ -350,7 +399,7 @@ def run_shard(spec, ctx):
     db = env.new_db("posc")
     with env.pushed(db):
         ch = Checker(ctx, db)
-        op_case, len_case, fs_case, gv_case = _strategies(ch)
+        op_case, len_case, fs_case, gv_case, outcome_case = _strategies(ch)
         seed = spec["seed"] * 1000 + spec["shard"]
         n = spec["n"]
 
@@ -368,6 +417,7 @@ def run_shard(spec, ctx):
         core.hunt(ctx, mk(len_case, ch.check_lengths), seed + 1, max(60, n // 4))
         core.hunt(ctx, mk(fs_case, ch.check_from_scalars), seed + 2, max(100, n // 2))
         core.hunt(ctx, mk(gv_case, ch.check_get_values), seed + 3, max(100, n // 2))
+        core.hunt(ctx, mk(outcome_case, ch.check_conversion_outcome), seed + 4, max(100, n // 3))
 
 
 def replay(case, ctx):
@@ -375,7 +425,9 @@ def replay(case, ctx):
     with env.pushed(db):
         ch = Checker(ctx, db)
         case = _fix(case)
-        if "items" in case:
+        if case.get("outcome"):
+            fn = ch.check_conversion_outcome
+        elif "items" in case:
             fn = ch.check_from_scalars
         elif "values" in case:
             fn = ch.check_get_values
